@@ -115,6 +115,81 @@ def drv_majority(tier, rng):
     return groups
 
 
+# ---------------------------------------------------------------- aspect elimination / satisfaction
+def level_source(rng, dir_, crits, types, vmax):
+    """explicit thresholds (monotone per criterion) or a generated series with dyadic parameters"""
+    r = rng.random()
+    if r < 0.45:
+        k = rng.randint(0, 3)
+        steps = sorted(rng.sample(range(0, vmax + 1), min(k, vmax + 1)))
+        ths = []
+        for s_ in (steps if dir_ == 'inc' else steps[::-1]):
+            t = {}
+            for c, ty in zip(crits, types):
+                t[c] = UNIT * (s_ if ty == 'gain' else vmax - s_)
+            ths.append(t)
+        return 'thresholds', {'thresholds': ths}
+    coef = rng.choice([Q, 2 * Q, 3 * Q])
+    if dir_ == 'inc':
+        fn = rng.choice(['idealMultipliedCoefficient', 'idealAdditiveCoefficient'])
+        return fn, {'coefficient': coef, 'minValue': rng.choice([0, Q, 2 * Q]), 'maxValue': rng.choice([2 * Q, 3 * Q, 4 * Q])}
+    fn = rng.choice(['idealMultipliedCoefficient', 'idealSubtractiveCoefficient'])
+    return fn, {'coefficient': coef, 'minValue': rng.choice([Q, 2 * Q]), 'maxValue': rng.choice([2 * Q, 3 * Q, 4 * Q])}
+
+
+def drv_aspect(tier, rng):
+    groups = []
+    N = 300 if tier == 'quick' else 6000
+    for t in range(N):
+        n = rng.randint(1, 7)
+        m = rng.randint(1, 3)
+        extra = rng.choice([0, 1])
+        vmax = rng.choice([2, 4, 8])
+        req = heur_req(rng, 'aspectEliminationHeuristic', n, m, list(range(0, vmax + 1)), extra)
+        types = [c['type'] for c in req['criteria']]
+        if rng.random() < 0.5:
+            for c in req['criteria']:
+                if rng.random() < 0.5:
+                    c['valuesRange'] = {'min': 0, 'max': UNIT * vmax * 2}
+        fn, params = level_source(rng, 'inc', CRIT[:m], types, vmax)
+        ws = rng.sample([1, 2, 3, 5], m) if rng.random() < 0.7 else [rng.choice([1, 2]) for _ in range(m)]
+        mp = {'function': fn, 'params': params, 'weights': {CRIT[j]: UNIT * ws[j] for j in range(m)},
+              'randomSeed': rng.randint(0, 10 ** 6)}
+        if rng.random() < 0.25:
+            mp['randomAlternativesOrdering'] = True
+        req['methodParameters'] = mp
+        groups.append([base_case(req, refmax=4)])
+    return groups
+
+
+def drv_satisfaction(tier, rng):
+    groups = []
+    N = 300 if tier == 'quick' else 6000
+    for t in range(N):
+        n = rng.randint(1, 7)
+        m = rng.randint(1, 3)
+        extra = rng.choice([0, 1, 2])
+        vmax = rng.choice([2, 4, 8])
+        req = heur_req(rng, 'satisfactionHeuristic', n, m, list(range(0, vmax + 1)), extra)
+        types = [c['type'] for c in req['criteria']]
+        if rng.random() < 0.5:
+            for c in req['criteria']:
+                if rng.random() < 0.5:
+                    c['valuesRange'] = {'min': 0, 'max': UNIT * vmax * 2}
+        fn, params = level_source(rng, 'dec', CRIT[:m], types, vmax)
+        mp = {'function': fn, 'params': params, 'randomSeed': rng.randint(0, 10 ** 6)}
+        r = rng.random()
+        if r < 0.35:
+            mp['currentChoice'] = rng.choice(req['choseToMake'])
+        elif r < 0.5 and extra:
+            mp['currentChoice'] = req['knownAlternatives'][n]['id']
+        if rng.random() < 0.25:
+            mp['randomAlternativesOrdering'] = True
+        req['methodParameters'] = mp
+        groups.append([base_case(req, refmax=5)])
+    return groups
+
+
 def nt_ties(o):
     """non-trivial for ranking shape: at least two entries and at least one tie or two levels"""
     r = o.get('resp', {}).get('result', [])
@@ -134,6 +209,25 @@ FAMILIES = {
         'trace': 'Trace_Decide',
         'drivers': [drv_utility],
     },
+    'levels': {
+        'mc': 'MC_Levels',
+        'mc_cfg': {'quick': 'MC_Levels_quick.cfg', 'thorough': 'MC_Levels_thorough.cfg'},
+        'mode': 'levels',
+        'trace': 'Trace_Levels',
+        'drivers': [],
+    },
+    'aspect': {
+        'mc': 'MC_AspectElim',
+        'mc_cfg': {'quick': 'MC_AspectElim_quick.cfg', 'thorough': 'MC_AspectElim_thorough.cfg'},
+        'mc_sample': {'quick': 3000, 'thorough': 60000},
+        'mode': 'decide', 'trace': 'Trace_Decide', 'drivers': [drv_aspect],
+    },
+    'satisfaction': {
+        'mc': 'MC_Satisfaction',
+        'mc_cfg': {'quick': 'MC_Satisfaction_quick.cfg', 'thorough': 'MC_Satisfaction_thorough.cfg'},
+        'mc_sample': {'quick': 3000, 'thorough': 60000},
+        'mode': 'decide', 'trace': 'Trace_Decide', 'drivers': [drv_satisfaction],
+    },
     'majority': {
         'mc': 'MC_Majority',
         'mc_cfg': {'quick': 'MC_Majority_quick.cfg', 'thorough': 'MC_Majority_thorough.cfg'},
@@ -150,10 +244,25 @@ def nt_majority(o):
     return any(e['evaluation'].get('comparedWith') and e['evaluation']['value'] == e['evaluation']['comparedAlternativeValue'] for e in r)
 
 
+def nt_levels(o):
+    return o.get('status') == 200 and len(o.get('series', [])) >= 2
+
+
+def nt_heur(o):
+    r = o.get('resp', {}).get('result', [])
+    return isinstance(r, list) and len(r) >= 3 and len({e['evaluation'].get('thresholdsIndex') for e in r}) >= 2
+
+
 PROPS = {
+    'C12': {'families': ['aspect'], 'nontrivial': nt_heur,
+            'rule': 'non-trivial = accepted aspect-elimination request ranking >= 3 alternatives on >= 2 different level indices; distinct by request'},
+    'C13': {'families': ['satisfaction'], 'nontrivial': nt_heur,
+            'rule': 'non-trivial = accepted satisfaction request ranking >= 3 alternatives on >= 2 different level indices; distinct by request'},
+    'C14': {'families': ['levels', 'aspect', 'satisfaction'], 'nontrivial': nt_levels,
+            'rule': 'non-trivial = valid parameter set whose real iterator yields >= 2 levels; distinct by parameter set + data set'},
     'C11': {'families': ['majority'], 'nontrivial': nt_majority,
             'rule': 'non-trivial = accepted majority request with >= 3 ranked alternatives and at least one drawn comparison; distinct by request'},
-    'C01': {'families': ['utility', 'majority'], 'nontrivial': nt_ties,
+    'C01': {'families': ['utility', 'majority', 'aspect', 'satisfaction'], 'nontrivial': nt_ties,
             'rule': 'cases = TLC-enumerated instances + seeded random instances; non-trivial = accepted request whose result has >= 2 entries; distinct by request'},
     'C03': {'families': ['utility'], 'nontrivial': nt_formula,
             'rule': 'non-trivial = accepted utility request with >= 2 criteria (weights/capacities matter); distinct by request'},
